@@ -91,7 +91,7 @@ Step ==
           [] e.ev = "Recreated" ->
                LET p == ToP(e.P) IN
                /\ last' = last
-               /\ errs' = errs \cup E(e.same /\ p = last, "C18.SameEverywhere")
+               /\ errs' = errs \cup E(e.fromreg /\ e.same /\ p = last, "C18.SameEverywhere")
                                \cup E("Done" \in seen, "M18.Order")
           [] OTHER ->
                /\ last' = last
